@@ -53,7 +53,7 @@ class Worktree:
 
 
 def confirm(pid, var):
-    src = f'/tmp/seed/{pid}'
+    src = os.path.join(os.environ.get('SEED_SRC', '/tmp/seed'), pid)
     patch = f'{src}/{var}.patch.diff'
     demo = f'{src}/{var}.demo.py'
     out = {'property': pid, 'variant': var}
